@@ -30,6 +30,15 @@ CHECKS = {
  'C18': dict(level='model_checking', engine='valmc', technique='exhaustive bounded enumeration of JSON values (all values up to a node bound) and of all ordered pairs, helper results compared with an independent canonical form',
    text='All values with <=3 (quick) / <=4 (thorough) constructor nodes over 13 colliding atoms (lists, tuples, dicts with str/int/float/bool/None keys): sanitize(v) is type-exactly json.loads(json.dumps(v)), idempotent and shares no mutable object with v. All ordered pairs of the de-duplicated sanitised set (plus tuple-ised variants): is_equal and equality of to_hashable both coincide with equality of an independently written canonical form, which makes is_equal an equivalence (reflexive, symmetric, transitive) on the set and gives the bool/number, 1/1.0 and list/tuple clauses. Non-JSON values raise TypeError; int/str/list/dict subclasses are normalised.',
    note='Bounded by node count; the random deeper values mentioned in the quantifier are sampling and not used as evidence.', design='4/C18'),
+ 'C11': dict(level='model_checking', engine='valmc', technique='exhaustive enumeration of (API edge, container position, in-place edit) cases, each executed as three real builds against an edit-free twin',
+   text='17 value-carrying API edges (args/kwargs into subbuild/build_file callees, caller keeping the argument object, values returned fresh / served from cache / nested, callee keeping the returned object, list_dir and walk results incl. the inner lists) x every list/dict node of three nested value shapes x every in-place edit: three consecutive builds with the edit must give the same return values (snapshotted before the edit), invocation logs, received arguments and cache decisions as the twin run without the edit.',
+   note='Differential oracle (program vs. its twin), no model. Shapes and edits are a finite listed alphabet.', design='4/C11'),
+ 'C15': dict(level='fault_enumeration', engine='faultmc', technique='exhaustive corruption enumeration: every truncation length, every single-bit flip, wrong payloads and every wrong-typed argument position, each executed on the implementation with a bit-identical-tree monitor',
+   text='On a tree with outputs, created directories, a foreign input and a valid cache file (cache in the root and in its own directory; intact tree and with a created directory removed by hand): every truncation 0..|B|-1, every single-bit flip, 13 gzip/JSON payload variants, cache path a directory, other build name and 60+ wrong-typed argument combinations of build/build_versioned/clean. A call that raises without entering the root function must leave the tree bit-identical (bytes, mtimes, inodes) and the temp dir unchanged; truncations, magic/trailer flips, wrong payloads and wrong types must be refused; other flips may be accepted and must then behave like the intact cache.',
+   note='Flips in deflate padding bits / unchecked gzip header fields are legitimately accepted by zlib; they are compared with the intact-cache behaviour instead.', design='4/C15'),
+ 'C16': dict(level='model_checking', engine='valmc', technique='exhaustive enumeration of return values x forest positions, legal names, versions, and of <=2-node/3-chain programs with cache-file structural invariants and cache-write faults, executed on the implementation',
+   text='Every value of the value set returned at 8 nesting positions of the operation forest and served from the cache type-exactly equal with nothing re-executed; every (directory name, file name) pair of a 17-name legal-name grammar built, rebuilt without re-execution and cleaned; every value as a function version; every enclosing-record-invalidated / nested-record-unchanged forest shape re-executes only the enclosing function; every <=2-node program and 3-chain built three times with reference-model comparison, steady-state logs, structural cache invariants (no duplicate record; cache file untouched until the root function returned) and every cache-write fault (open/write/close) followed by a build that must behave as if the failed one never ran.',
+   note='Names longer than 255 bytes and NUL are not legal names; BaseException (KeyboardInterrupt) during the root function is not injected (the library only promises rollback for Exception).', design='4/C16'),
 }
 NOT_YET = {}
 props = [json.loads(l)['id'] for l in open(V + '/properties.jsonl')]
